@@ -106,4 +106,52 @@ theorem seq_walks_representable (I : SeqInst) (d : MPData) (h : I.data = some d)
     · simp
   exact ⟨hb, (seq_feasible_iff_walks I d h hL hN _ hb).2 ⟨w, hw, fun _ _ => rfl⟩⟩
 
+/-! ## non-vacuity -/
+
+/-- the constructor applied to the reachable graph `C15.nv_g` (depot + customers `a`, `b`), two vehicles, four
+    positions: 12 free variables -/
+def nv_S : SeqInst := ((SeqInst.new C15.nv_g false).setMaxVehicles 2).setMaxSeqLen 4
+
+/-- `I.data = some d` by evaluation -/
+def nv_Sd : MPData := nv_S.data.get (by decide +kernel)
+theorem nv_S_data : nv_S.data = some nv_Sd := (Option.some_get _).symm
+
+example : nv_Sd.n = 12 ∧ nv_Sd.m = 6 ∧ nv_Sd.R.length = 10 ∧ nv_S.g.nodes.length = 3 := by decide +kernel
+
+/-- vehicle 0 drives `d, a, b, d`, vehicle 1 stays at the depot -/
+def nv_w : ℕ → ℕ → ℕ := fun v p => if v = 0 then [0, 1, 2, 0].getD p 0 else 0
+
+theorem nv_walk : Walk nv_S nv_w where
+  lt := by decide +kernel
+  start := by decide +kernel
+  stop := by decide +kernel
+  arcs := fun v hv p hp =>
+    (by decide +kernel : ∀ v < 2, ∀ p < 3, nv_S.g.hasArc (nv_w v p) (nv_w v (p + 1)) = true) v hv p
+      (by have : p + 1 < 4 := hp; omega)
+  absorb := fun v hv p h1 hp =>
+    (by decide +kernel : ∀ v < 2, ∀ p < 3, 1 ≤ p → nv_w v p = 0 → nv_w v (p + 1) = 0) v hv p
+      (by have : p + 1 < 4 := hp; omega) h1
+  once := fun k h1 h2 => by
+    have h3 : nv_S.g.nodes.length = 3 := by decide +kernel
+    have : k = 1 ∨ k = 2 := by omega
+    rcases this with rfl | rfl <;> decide +kernel
+
+/-- all hypotheses of `seq_walks_representable` hold; its conclusion on the concrete walk -/
+theorem nv_repr : IsBin nv_Sd.n (indicator nv_S nv_w) ∧ nv_Sd.feasibleB (indicator nv_S nv_w) = true :=
+  seq_walks_representable nv_S nv_Sd nv_S_data (by decide) (by decide +kernel) nv_w nv_walk
+
+example : (List.range 12).map (indicator nv_S nv_w) = [0, 1, 1, 0, 0, 0, 0, 1, 0, 0, 1, 0] := by decide +kernel
+
+/-- all hypotheses of `seq_feasible_iff_walks` hold for a literal binary vector; both sides occur:
+    the vector of `nv_w` is feasible, hence a walk indicator; the vector `d, b, a, d` (no arc `b → a`) is not -/
+def nv_x : Vec := vecOf [0, 1, 1, 0, 0, 0, 0, 1, 0, 0, 1, 0]
+theorem nv_x_bin : IsBin nv_Sd.n nv_x := by unfold IsBin; decide +kernel
+
+example : ∃ w, Walk nv_S w ∧ ∀ k < nv_Sd.n, nv_x k = indicator nv_S w k :=
+  (seq_feasible_iff_walks nv_S nv_Sd nv_S_data (by decide) (by decide +kernel) nv_x nv_x_bin).1 (by decide +kernel)
+
+example : ¬ ∃ w, Walk nv_S w ∧ ∀ k < nv_Sd.n, vecOf [0, 1, 0, 0, 1, 0, 0, 1, 1, 0, 0, 0] k = indicator nv_S w k := fun h =>
+  absurd ((seq_feasible_iff_walks nv_S nv_Sd nv_S_data (by decide) (by decide +kernel) _
+    (by unfold IsBin; decide +kernel)).2 h) (by decide +kernel)
+
 end Vrp.C07
